@@ -11,6 +11,7 @@ import (
 	"path/filepath"
 	"sort"
 	"strings"
+	"time"
 
 	"github.com/dapr/kit/verifhook"
 
@@ -18,10 +19,20 @@ import (
 )
 
 type runner struct {
-	res  *lib.Result
-	drv  *lib.Drv
-	fl   lib.Flags
-	fail int
+	res   *lib.Result
+	drv   *lib.Drv
+	fl    lib.Flags
+	hangs int
+	abort bool // too many hangs (each costs seconds and leaves goroutines behind): stop generating cases
+	until time.Time
+}
+
+func (r *runner) stop() bool {
+	if !r.abort && time.Now().After(r.until) {
+		r.abort = true
+		r.res.Note("time budget exhausted: remaining cases skipped")
+	}
+	return r.abort
 }
 
 // traceLines are the lines sent to the model driver for one execution.
@@ -44,8 +55,21 @@ func traceLines(evs []Ev) []string {
 }
 
 func (r *runner) eval(c Case) []Problem {
+	if r.stop() {
+		return nil
+	}
 	evs := runCase(c)
 	probs := monitor(evs)
+	for _, e := range evs {
+		if e.Kind == "hang" {
+			r.hangs++
+			if r.hangs >= 4 && !r.abort {
+				r.abort = true
+				r.res.Note("4 executions hung: remaining cases skipped")
+			}
+			break
+		}
+	}
 	nontrivial := false
 	locked := 0
 	var h = fnv.New64a()
@@ -142,7 +166,14 @@ func main() {
 		verifhook.Set(nil)
 		res.Write(fl.Out)
 	}()
-	r := &runner{res: res, fl: fl}
+	budget := 150 * time.Second
+	if fl.Tier == "thorough" {
+		budget = 12 * time.Minute
+	}
+	if fl.Search {
+		budget *= 2
+	}
+	r := &runner{res: res, fl: fl, until: time.Now().Add(budget)}
 	drv, err := lib.StartDrv(fl.Drv, "C06")
 	if err != nil {
 		res.Note("driver did not start: " + err.Error())
